@@ -20,8 +20,10 @@ pub open spec fn seq_count(s: Seq<int>, upto: int, q: spec_fn(int) -> bool) -> n
 }
 
 // the iterator over the indices of the FULL buckets (FullBucketsIndices): yields exactly those indices, in
-// ascending order, each once.  ASSUMED here; its text is the twin of RawIterRange::next_impl proved in unit
-// iter, and the contract is evaluated natively through r_resize / r_iter.
+// ascending order, each once.  ASSUMED here in sequence form; FullBucketsIndices::next is PROVED in unit iter in
+// the form "returns the smallest remaining FULL index and removes exactly it, None iff items == 0", and
+// lemma_min_is_next_enum (same unit) shows that this is the ascending enumeration used below; the construction
+// `full_buckets_indices()` itself (first group loaded, items copied) is evaluated natively (r_resize).
 pub struct FullBucketsIndices { pub s: Ghost<Seq<int>>, pub pos: Ghost<int> }
 impl FullBucketsIndices {
     pub fn into_iter(self) -> (r: FullBucketsIndices) ensures r == self { self }
